@@ -21,7 +21,11 @@ History component (spec/CallerHist.tla, runs beside the table):
      (several entry points of different families, real wrapper chains) and the attribution recorded.
   6. TLC validates the recording against CallerHistTrace (a monitor over the same operators).
 
-`python3 checks/c14.py gen-sites` regenerates harness/fam_caller_sites.go.
+Cells with site # "go" (dimension `site` of Caller.tla) run through wrapper chains whose frames sit behind //line
+directives (file names with backslashes, quotes, blanks, control characters, non-ASCII: LINE_SITES of
+checks/encoderlib.py); for them the decoded (file, line, function) must be exactly that of the frame.
+
+`python3 checks/c14.py gen-sites` regenerates harness/fam_caller_sites.go and harness/fam_caller_lines.go.
 """
 import concurrent.futures
 import hashlib
@@ -41,12 +45,17 @@ from vlib import Undecided, read_ndjson, write_ndjson, edge_cover, parse_action 
 from tlagen import gen_mc  # noqa: E402
 
 INVARIANTS = ["TypeOK", "AttributionAtIssuer", "SkipMovesExactlyN", "FormatIndependent", "KindIndependent",
-              "InlineIndependent", "ViaIndependent", "WithinChain"]
+              "InlineIndependent", "ViaIndependent", "SiteIndependent", "WithinChain"]
 
 # named deviation of the specification -> known-finding key
 DEV_KEYS = {"BridgeIgnoresSkip": "ep:stdlog:skip-ignored"}
 
-CELL_FIELDS = ["ep", "fam", "fmt", "kind", "inl", "via", "skip", "other", "depth"]
+CELL_FIELDS = ["ep", "fam", "fmt", "kind", "inl", "via", "skip", "other", "depth", "site"]
+
+# entry points that also have call sites behind //line directives (= LineEPNames of spec/Caller.tla)
+LINE_EPS = ["Info", "Println", "InfoContext", "LogAttrs", "Log", "Infof", "slog.Warn", "slog.InfoContext",
+            "logslog.Info", "logslog.LogAttrs", "stdlog.Print", "stdlog.Output"]
+LINE_DEPTH = 2
 
 
 def tiers(ctx):
@@ -55,8 +64,17 @@ def tiers(ctx):
     return dict(MaxDepthInl=4, MaxDepthNo=6, AllOthers=True)
 
 
+def pick_line_sites(ctx, cap):
+    """The //line chains of a tier: quick = the first chain of every file-name class plus every backslash name
+    (Windows paths); thorough = all of them."""
+    ids = [x["id"] for x in cap.get("line_sites") or []]
+    if not ctx.quick():
+        return ids
+    return [i for i in ids if i.endswith("/0") or i.startswith("bslash/")]
+
+
 def mc_files(consts, devs, cell_file=None, init="Init"):
-    mc, cfg = gen_mc("MC", "Caller", dict(Devs=set(devs)),
+    mc, cfg = gen_mc("MC", "Caller", dict(Devs=set(devs), LineSites=set(consts.get("LineSites", []))),
                      ["INIT " + init, "NEXT Next", "CHECK_DEADLOCK FALSE", "INVARIANTS " + " ".join(INVARIANTS)],
                      plain=dict(MaxDepthInl=consts["MaxDepthInl"], MaxDepthNo=consts["MaxDepthNo"],
                                 AllOthers="TRUE" if consts["AllOthers"] else "FALSE"))
@@ -67,7 +85,7 @@ def mc_files(consts, devs, cell_file=None, init="Init"):
 
 def validate(ctx, consts, trace_path, name):
     """TLC validates the recording; returns the verdict record printed by CallerTrace!Done."""
-    mct, cfg = gen_mc("MCT", "CallerTrace", dict(Devs=set(), TraceFile="trace.ndjson"),
+    mct, cfg = gen_mc("MCT", "CallerTrace", dict(Devs=set(), TraceFile="trace.ndjson", LineSites=set(consts.get("LineSites", []))),
                       ["SPECIFICATION TSpec", "INVARIANTS Done TTypeOK", "CHECK_DEADLOCK FALSE"],
                       plain=dict(MaxDepthInl=consts["MaxDepthInl"], MaxDepthNo=consts["MaxDepthNo"],
                                  AllOthers="TRUE" if consts["AllOthers"] else "FALSE", MaxReport=3))
@@ -83,14 +101,21 @@ def validate(ctx, consts, trace_path, name):
     return res[0]
 
 
+def encoderlib_quote(s):
+    sys.path.insert(0, HERE)
+    from encoderlib import ascii_quote
+    return ascii_quote(s)
+
+
 def cell_key(c):
     return tuple(c[f] for f in CELL_FIELDS)
 
 
 def describe(c):
-    return "%s [%s, %s logger, %s wrappers, skip %d via %s%s, %d wrapper(s)]" % (
+    return "%s [%s, %s logger, %s wrappers, skip %d via %s%s, %d wrapper(s)%s]" % (
         c["ep"], c["fmt"], c["kind"], "inlinable" if c["inl"] else "noinline", c["skip"], c["via"],
-        " (previous/parent skip %d)" % c["other"] if c["via"] in ("SetSet", "WithOver") else "", c["depth"])
+        " (previous/parent skip %d)" % c["other"] if c["via"] in ("SetSet", "WithOver") else "", c["depth"],
+        "" if c.get("site", "go") == "go" else ", frames behind //line directives: chain %s" % c["site"])
 
 
 def execute(ctx, consts, cells, tag):
@@ -138,7 +163,14 @@ def execute(ctx, consts, cells, tag):
 
     for b in v["bad"]:             # up to 3 reproducers per entry point, all divergent cells counted
         ep = by_id[b["id"]]["ep"] if b["id"] >= 0 else "?"
-        report("ep:" + ep, b, "(%d cells of this entry point diverge)" % v["badn"].get(ep, 0))
+        site = by_id[b["id"]].get("site", "go") if b["id"] >= 0 else "go"
+        d = det.get(b["id"], {})
+        if site != "go":
+            # a call site behind a //line directive: named after the class of its file name and the format
+            report("site:%s:%s" % (site.split("/")[0], by_id[b["id"]]["fmt"]), b,
+                   "(file name of the frames: %s; %d cells of this entry point diverge)" % (d.get("sitefile"), v["badn"].get(ep, 0)))
+        else:
+            report("ep:" + ep, b, "(%d cells of this entry point diverge)" % v["badn"].get(ep, 0))
     seen_dev = set()
     for b in v["dev"]:             # one report per named deviation (first cell as the reproducer)
         if b["dev"] in seen_dev:
@@ -602,7 +634,8 @@ def run(ctx, replay):
             ctx.sample(dict(history=beh["steps"][:8]))
             return ctx.finish(rule="replay of one recorded history", exhaustive=False)
         consts = rp.get("consts", consts)
-        cells = [dict(c, id=i) for i, c in enumerate(rp["cells"])]
+        cells = [dict(dict(site="go"), **dict(c, id=i)) for i, c in enumerate(rp["cells"])]
+        consts = dict(consts, LineSites=sorted(set(consts.get("LineSites", [])) | {c["site"] for c in cells if c["site"] != "go"}))
         rows, details, v = execute(ctx, consts, cells, "replay")
         ctx.traces += 1
         ctx.evaluations += len(cells)
@@ -617,6 +650,17 @@ def run(ctx, replay):
     cap = json.loads(p.stdout.strip().splitlines()[-1])
     if consts["MaxDepthInl"] > cap["inl_depth"] or consts["MaxDepthNo"] > cap["no_depth"]:
         raise Undecided("worker chains are shallower than the configuration asks for")
+    # the //line chains: generated from the table, and the toolchain took every directive as written
+    want_sites = [(i, c, encoderlib_quote(f)) for i, c, f in line_site_ids()]
+    if [(x["id"], x["cls"], x["file"]) for x in cap.get("line_sites") or []] != want_sites:
+        raise Undecided("harness/fam_caller_lines.go is not generated from LINE_SITES (python3 checks/c14.py gen-sites)")
+    wrong = [x for x in cap["line_sites"] if x["runtime"] != x["file"]]
+    if wrong:
+        raise Undecided("the runtime does not report the file name of the //line directive for chain %s: %s" % (
+            wrong[0]["id"], wrong[0]["runtime"]))
+    if sorted(cap.get("line_eps") or []) != sorted(LINE_EPS) or cap.get("line_depth") != LINE_DEPTH:
+        raise Undecided("entry points / depth of the //line chains of the worker differ from LINE_EPS / LINE_DEPTH")
+    consts["LineSites"] = pick_line_sites(ctx, cap)
 
     # ---- 1a. non-vacuity + export: a short run over the bridge family with the named deviation
     #          enabled must violate AttributionAtIssuer; the same run exports the whole table
@@ -629,8 +673,11 @@ def run(ctx, replay):
     ctx.extra["witness"] = "AttributionAtIssuer violated with Devs={BridgeIgnoresSkip} (expected)"
     eps = w.prints("eps")
     ncells = w.prints("ncells")
-    if len(eps) != 1 or len(ncells) != 1:
+    lineeps = w.prints("lineeps")
+    if len(eps) != 1 or len(ncells) != 1 or len(lineeps) != 1:
         raise Undecided("table export did not run:\n" + w.out[-2000:])
+    if sorted(lineeps[0]) != sorted(LINE_EPS):
+        raise Undecided("LineEPNames of the specification and LINE_EPS of the worker generator differ")
     if sorted(eps[0]) != sorted(cap["eps"]):
         raise Undecided("entry points of the specification and of the worker differ: %s" % sorted(set(eps[0]) ^ set(cap["eps"])))
     table = read_ndjson(cell_file)
@@ -675,7 +722,9 @@ def run(ctx, replay):
         raise Undecided("TLC visited %d states, the table has %d cells" % (mc["r"].distinct, ncells[0]))
     hist_apply(ctx, hist["r"])
     return ctx.finish(rule="(a) every cell of the TLC-enumerated table (entry point x 3 formats x logger kind x inlinable/noinline "
-                           "wrappers x way the skip is given x skip x depth>=skip) is issued on the library and the recorded "
+                           "wrappers x way the skip is given x skip x depth>=skip; plus, for 12 entry points (one per calling "
+                           "convention), chains whose frames sit behind //line directives: every file-name class the toolchain "
+                           "accepts x 3 formats x skip 0..2 x depth skip..2) is issued on the library and the recorded "
                            "attribution validated by TLC; non-trivial = distinct cells with skip>0 or at least one wrapper; "
                            "(b) every edge of the TLC-explored machine of logger configuration (WithSkip/SetSkip on any live "
                            "logger, package-level forms, New/With... children, SetDefault, other configuration) plus seeded "
@@ -696,7 +745,12 @@ def run_cells(ctx, consts, table, eps):
     ctx.evaluations += len(cells)
     # non-trivial = distinct cells in which the attributed frame is not simply the innermost user
     # frame of a depth-0 chain: something had to be skipped exactly (skip > 0) or wrappers exist
-    ctx.nontrivial += len(set(cell_key(c) for c in cells if c["skip"] > 0 or c["depth"] > 0))
+    ctx.nontrivial += len(set(cell_key(c) for c in cells if c["skip"] > 0 or c["depth"] > 0 or c["site"] != "go"))
+    line_cells = [c for c in cells if c["site"] != "go"]
+    ctx.extra["line_site_cells"] = dict(cells=len(line_cells), chains=len(set(c["site"] for c in line_cells)),
+                                        file_name_classes=sorted(set(c["site"].split("/")[0] for c in line_cells)),
+                                        entry_points=sorted(set(c["ep"] for c in line_cells)),
+                                        refused_by_the_toolchain=["invalid UTF-8", "NUL", "U+FEFF"])
     inl_cells = [d for d, c in zip(details, cells) if c["inl"] and c["depth"] > 0]
     fully = sum(1 for d in inl_cells if all(f["inlined"] for f in d["user"][:-2]))
     ctx.extra.update(cells=len(cells), entry_points=len(eps[0]), accepted=v["ok"], divergent=v["nbad"],
@@ -708,7 +762,11 @@ def run_cells(ctx, consts, table, eps):
         ctx.sample(dict(cell={k: c[k] for k in CELL_FIELDS}, want=c["want"], got=d["got"], caller=d.get("caller")))
     ctx.assumptions += [
         "the user frames of a cell are identified in the real stack (captured inside the destination's Write) by function name (c14s*/c14w*/c14drive)",
-        "the reported file is compared by base name (path hardening is C18), the function in the coloured line without import path",
+        "the reported file is compared by base name (path hardening is C18), the function in the coloured line without import path; "
+        "for the chains behind //line directives (file names with backslashes, quotes, blanks, TAB/CR/LF/other control characters, "
+        "ESC, DEL, non-ASCII, U+2028, astral code points, markup, '=' - all the Go toolchain accepts; it refuses invalid UTF-8, NUL "
+        "and U+FEFF) the decoded file must be EXACTLY slog.Safety(file the runtime reports for the frame), line and function exact; "
+        "in the coloured line, which has no quoting, the frames of the real stack are the candidates (file:line func at the end of the line)",
         "std-log bridge cells use logger level Info / bridge severity Info so that a record is emitted whichever way the admission comparison is written (C15)",
         "Verbose/VerboseContext (build tag verbose) are out of scope"]
 
@@ -796,6 +854,85 @@ def gen_sites():
     print("wrote", path)
 
 
+def line_site_ids():
+    """(id, class, file name) of every //line chain: the table LINE_SITES of checks/encoderlib.py."""
+    sys.path.insert(0, HERE)
+    from encoderlib import LINE_SITES
+    n, out = {}, []
+    for cls, name, _ in LINE_SITES:
+        out.append(("%s/%d" % (cls, n.get(cls, 0)), cls, name))
+        n[cls] = n.get(cls, 0) + 1
+    return out
+
+
+def gen_line_sites(path=None):
+    """harness/fam_caller_lines.go: for every file name of LINE_SITES a //go:noinline wrapper chain whose functions sit
+    behind //line directives naming that file, with one issuing function per entry point of LINE_EPS.  NOT gofmt'ed."""
+    from encoderlib import go_quote, line_directive
+    fname = "fam_caller_lines.go"
+    path = path or os.path.join(os.path.dirname(HERE), "harness", fname)
+    calls = {name: (ident, call) for name, ident, call in site_table()}
+    L = []
+
+    def emit(text):
+        L.extend(text.split("\n"))
+
+    emit("// Code generated by `python3 checks/c14.py gen-sites`; DO NOT EDIT, DO NOT gofmt (the //line directives")
+    emit("// carry raw TAB / CR / ESC / control bytes on purpose).")
+    emit("")
+    emit("package main")
+    emit("")
+    emit("// C14: wrapper chains whose frames sit behind //line directives - the file names of generated code:")
+    emit("// Windows paths, quotes, blanks, control characters, non-ASCII (table LINE_SITES of checks/encoderlib.py).")
+    emit("// c14sL<k>_<entry point> issues the record, c14wL<k>_<j> is the j-th //go:noinline wrapper of chain k.")
+    emit("")
+    emit("import (")
+    emit('\tlogslog "log/slog"')
+    emit("")
+    emit('\t"github.com/hedzr/logg/slog"')
+    emit(")")
+    emit("")
+    emit("var _ = logslog.LevelInfo")
+    emit("var _ slog.Level")
+    emit("")
+
+    def fn(header, name, line, stmt):
+        emit("//go:noinline")
+        emit(header + " {")
+        d, block = line_directive(name, line)
+        emit(("\t" + d + stmt) if block else (d + "\t" + stmt))
+        emit("\tc14After++")
+        emit("//line %s:%d" % (fname, len(L) + 2))
+        emit("}")
+        emit("")
+
+    reg = []
+    for k, (sid, cls, name) in enumerate(line_site_ids()):
+        sites = []
+        for e, ep in enumerate(LINE_EPS):
+            ident, call = calls[ep]
+            fn("func c14sL%d_%s()" % (k, ident), name, 100 + 10 * e, call)
+            sites.append("%s: c14sL%d_%s" % (go_quote(ep), k, ident))
+        chain = ["nil"]
+        for j in range(1, LINE_DEPTH + 1):
+            fn("func c14wL%d_%d()" % (k, j), name, 1000 + 10 * j, "c14Next()" if j == 1 else "c14wL%d_%d()" % (k, j - 1))
+            chain.append("c14wL%d_%d" % (k, j))
+        reg.append("\t{id: %s, cls: %s, file: %s, k: %d, chain: [c14LineDepth + 1]func(){%s},\n\t\tsites: map[string]func(){%s}},"
+                   % (go_quote(sid), go_quote(cls), go_quote(name), k, ", ".join(chain), ", ".join(sites)))
+    emit("const c14LineDepth = %d" % LINE_DEPTH)
+    emit("")
+    emit("var c14LineSites = []*c14LineSite{")
+    for r in reg:
+        emit(r)
+    emit("}")
+    with open(path, "wb") as fh:
+        fh.write(("\n".join(L) + "\n").encode("utf-8"))
+    print("wrote", path)
+
+
 if __name__ == "__main__":
     if len(sys.argv) > 1 and sys.argv[1] == "gen-sites":
         gen_sites()
+        gen_line_sites()
+    if len(sys.argv) > 2 and sys.argv[1] == "gen-line-sites":
+        gen_line_sites(sys.argv[2])
